@@ -1,0 +1,17 @@
+//go:build verif
+
+package helpers
+
+import "os"
+
+// VerifSetLiveOutput lets the verification harness keep the periodic renderer
+// running although its output is not a terminal
+func VerifSetLiveOutput(live bool) {
+	liveOutput = live
+}
+
+func init() {
+	if os.Getenv("VERIF_LIVE_OUTPUT") == "1" {
+		liveOutput = true
+	}
+}
